@@ -5,7 +5,7 @@
 use crate::menu::{dat_bytes, lab, lab_text};
 use crate::model::{fixed_tree, hist_text, put_var, Expect, Model, Op};
 use crate::probes;
-use crate::real::{apply_real, guarded, kids_of, Ret};
+use crate::real::{apply_real, exact_copy, guarded, kids_of, Ret};
 use rustc_hash::FxHashSet;
 use sodg::verif::Snapshot;
 use sodg::{Label, Sodg};
@@ -378,10 +378,8 @@ fn has_marker<const N: usize>(g: &Sodg<N>, v: usize) -> Option<bool> {
 /// comparing return values and the alive set after every read.
 pub fn drain_probe<const N: usize>(g: &Sodg<N>, m: &Model, desc: bool) -> Vec<Finding> {
     let mut out = vec![];
-    let mut gc = match guarded(|| g.clone()) {
-        Ok(c) => c,
-        Err(e) => return vec![Finding::new("panic-clone", &["C10"], format!("clone() panicked: {e}"))],
-    };
+    // without an exact copy the probe cannot run (C10 judges clone())
+    let Some(mut gc) = exact_copy(g) else { return out };
     let mut mc = m.clone();
     let mut order = m.keys();
     if desc {
@@ -428,8 +426,13 @@ pub fn drain_probe<const N: usize>(g: &Sodg<N>, m: &Model, desc: bool) -> Vec<Fi
 /// The observable course of reading every listed vertex once on a copy:
 /// per read the returned bytes (or the panic) and the alive set afterwards.
 pub fn drain_trace<const N: usize>(g: &Sodg<N>, order: &[usize], desc: bool) -> Vec<String> {
+    let Some(gc) = exact_copy(g) else { return vec!["<no exact copy available>".to_string()] };
+    drain_trace_owned(gc, order, desc)
+}
+
+/// The same on an object we own (it is consumed): no clone() involved.
+pub fn drain_trace_owned<const N: usize>(mut gc: Sodg<N>, order: &[usize], desc: bool) -> Vec<String> {
     let mut out = vec![];
-    let Ok(mut gc) = guarded(|| g.clone()) else { return vec!["clone() panicked".to_string()] };
     let mut order = order.to_vec();
     if desc {
         order.reverse();
@@ -439,7 +442,8 @@ pub fn drain_trace<const N: usize>(g: &Sodg<N>, order: &[usize], desc: bool) -> 
         if !present.contains(&v) {
             continue;
         }
-        match guarded(|| gc.data(v).map(|h| h.to_vec())) {
+        // the returned Hex is compared structurally (variant and fields are public API)
+        match guarded(|| gc.data(v).map(|h| raw_hex(&h))) {
             Err(e) => {
                 out.push(format!("data({v}) panicked: {e}"));
                 break;
@@ -448,6 +452,14 @@ pub fn drain_trace<const N: usize>(g: &Sodg<N>, order: &[usize], desc: bool) -> 
         }
     }
     out
+}
+
+/// variant and fields of a Hex as text
+pub fn raw_hex(h: &sodg::Hex) -> String {
+    match h {
+        sodg::Hex::Vector(v) => format!("Vector({v:?})"),
+        sodg::Hex::Bytes(a, l) => format!("Bytes({a:?},{l})"),
+    }
 }
 
 fn swap_tag(op: &Op) -> Option<&'static str> {
@@ -572,7 +584,10 @@ pub fn check_transition<const N: usize>(
                 if has_marker(g1, v) == Some(true) {
                     out.push(Finding::new("add-not-blank", &["C04", "C03"], format!("{} created ν{v} but v_print shows a data marker: {:?}", op.text(), g1.v_print(v).ok())));
                 }
-                let r = guarded(|| g1.clone().data(v).map(|h| h.to_vec()));
+                let r = match exact_copy(g1) {
+                    Some(mut c) => guarded(|| c.data(v).map(|h| h.to_vec())),
+                    None => Ok(None),
+                };
                 if !matches!(r, Ok(None)) {
                     out.push(Finding::new("add-not-blank", &["C04", "C03"], format!("{} created ν{v} but data({v}) on a copy gives {r:?} instead of None", op.text())));
                 }
@@ -709,10 +724,15 @@ fn materialize<const N: usize>(
         cache.g = Some(g);
         cache.m = m;
     }
-    let mut g = guarded(|| cache.g.as_ref().unwrap().clone())?;
-    let mut m = cache.m.clone();
-    step_nocheck(&mut g, &mut m, &op)?;
-    Ok((g, m))
+    // continue on a copy of the cached parent if the copy is exact, else replay everything
+    match exact_copy(cache.g.as_ref().unwrap()) {
+        Some(mut g) => {
+            let mut m = cache.m.clone();
+            step_nocheck(&mut g, &mut m, &op)?;
+            Ok((g, m))
+        }
+        None => replay_both::<N>(cfg, &history_of(roots, trail, level, idx)),
+    }
 }
 
 /// Apply `op` to (g, m): the single place where model and implementation
@@ -721,7 +741,7 @@ pub fn step<const N: usize>(labels: &[u8], g: &mut Sodg<N>, m: &mut Model, op: &
     let m0 = m.clone();
     // add() on a present vertex is judged against the graph before the call
     let g0 = match op {
-        Op::Add(v) if m0.present.contains_key(v) => guarded(|| g.clone()).ok(),
+        Op::Add(v) if m0.present.contains_key(v) => exact_copy(g),
         _ => None,
     };
     let res = apply_real(g, op);
@@ -1030,6 +1050,11 @@ fn run_n<const N: usize>(cfg: &HxCfg) -> HxResult {
             res.cap_hit = Some("stopped after more than 200 violations".to_string());
             break;
         }
+        if res.violation_count == 0 && res.diverged_other > 2000 {
+            // on such a tree the state graph usually does not close (counters drift without bound)
+            res.cap_hit = Some(format!("stopped: the implementation diverges from the reference model in {} places that other properties judge; exploring further says nothing about this property", res.diverged_other));
+            break;
+        }
     }
     res.machinery = machinery;
     // deepest history as a sample
@@ -1114,16 +1139,25 @@ fn expand_state<const N: usize>(
         return;
     }
     let impl_pos = g0.verif_snapshot().next_v;
+    let mut clone_reported = false;
     for op in ops {
         if !m0.enabled(op, impl_pos) {
             continue;
         }
         out.transitions += 1;
-        let mut g1 = match guarded(|| g0.clone()) {
-            Ok(g) => g,
-            Err(e) => {
-                out.findings.push((idx, None, Finding::new("panic-clone", &["C10"], format!("clone() panicked: {e}"))));
-                return;
+        // successors are made from an exact copy; where clone() is not exact the state is
+        // rebuilt from scratch instead, so that only C10 depends on clone()
+        let mut g1 = match exact_copy(g0) {
+            Some(g) => g,
+            None => {
+                if !clone_reported {
+                    clone_reported = true;
+                    out.findings.push((idx, None, Finding::new("clone-inexact", &["C10"], "clone() of this state panics or is not an exact copy (complete snapshots differ)".to_string())));
+                }
+                match replay_both::<N>(cfg, &history_of(hist_ctx.0, hist_ctx.1, hist_ctx.2, idx)) {
+                    Ok((g, _)) => g,
+                    Err(_) => return,
+                }
             }
         };
         let mut m1 = m0.clone();
